@@ -15,7 +15,7 @@ func init() {
 	register(&Property{
 		ID:      "C08",
 		NeedSSA: true,
-		Decided: "Structural necessary conditions: (coherence) for the frozen table of cursor fields of every seekable reader (row index, page index, skip count, pending-action flags, buffered page/values), the field is assigned — or pinned by the true edge of an equality test on it — on every path to a success exit of the method that moves the position (SeekToRow, ReadRows, ReadPage, ReadValues); a flag that only some paths set, or a count that some successful exit does not account for, is reported with the exit; (prefix) a count-returning method that advances its slice parameter returns counts that include the advance; (errors) no error of a SeekToRow/Seek/Discard call is dropped or swallowed outside the listed exceptions; (async) the asynchronous page reader hands out a page only under the version equality test, and its sticky fatal error is never cleared inside the read loop. (reposition) wherever FilePages assigns its page cursor (found by role: the field ReadPage advances by one) an absolute position, the same function repositions the stream (Seek/Reset/new stream) on the same path; (position) FilePages.SeekToRow returns success without moving the stream only through a test on a value derived from the stream position query; (reset) the cursors of rowGroupRows and columnChunkValueReader are re-established by their Reset; (closed) a method that closes the object held in a receiver field while the receiver stays in use replaces the field on every non-failing path. (errexit) a ReadRows that reads several column readers stores into its receiver (or calls a method of it) in the block that returns the error of a column read; (loopcond) no loop whose only exit is its condition has a condition that nothing in the loop can change. (fanout) a SeekToRow of a composite reader that repositions children kept in a slice field of the receiver does it in a loop whose only bound is the length of that field (`i < len(S)` or a range over it), with no condition inside the loop that lets an iteration skip a child and continue; a child indexed by a variable is never rewound to a constant outside such a loop. (slicekeep) a Slice or Clone method of a page type that builds its result as a literal of its own receiver type sets every field of the type (directly or by filling it through a method of the field). (rowsfollow) a function that gives the internal reader another row group also replaces (or has just dropped, under a nil test) the rows it has open. (fanout, cont.) the loop is left only at its bound or on a failing return, and its first index is computed from the cursor as the function leaves it (no later assignment of the field it was read from). (errexit, cont.) the same for SeekToRow methods that have an \"already there\" shortcut (a parameter compared with a field of the receiver) and reposition the elements of a slice field one after the other. (cursorreset) in a method that fills a caller-supplied []Value or []Row, a receiver field that a loop advances and that is rewound to zero inside a loop is rewound only on a branch of a test made after the step that reads it or that compares against the length of the destination (the inner cursor is exhausted), never merely after the loop that also stops when the destination is full. (valuerecv) no method with a value receiver stores a field through a pointer embedded in the receiver: narrowing a copy of a page (Slice) must not narrow the chunk the copy still points to.",
+		Decided: "Structural necessary conditions: (coherence) for the frozen table of cursor fields of every seekable reader (row index, page index, skip count, pending-action flags, buffered page/values), the field is assigned — or pinned by the true edge of an equality test on it — on every path to a success exit of the method that moves the position (SeekToRow, ReadRows, ReadPage, ReadValues); a flag that only some paths set, or a count that some successful exit does not account for, is reported with the exit; (prefix) a count-returning method that advances its slice parameter returns counts that include the advance; (errors) no error of a SeekToRow/Seek/Discard call is dropped or swallowed outside the listed exceptions; (async) the asynchronous page reader hands out a page only under the version equality test, and its sticky fatal error is never cleared inside the read loop. (reposition) wherever FilePages assigns its page cursor (found by role: the field ReadPage advances by one) an absolute position, the same function repositions the stream (Seek/Reset/new stream) on the same path; (position) FilePages.SeekToRow returns success without moving the stream only through a test on a value derived from the stream position query; (reset) the cursors of rowGroupRows and columnChunkValueReader are re-established by their Reset; (closed) a method that closes the object held in a receiver field while the receiver stays in use replaces the field on every non-failing path. (errexit) a ReadRows that reads several column readers stores into its receiver (or calls a method of it) in the block that returns the error of a column read; (loopcond) no loop whose only exit is its condition has a condition that nothing in the loop can change. (fanout) a SeekToRow of a composite reader that repositions children kept in a slice field of the receiver does it in a loop whose only bound is the length of that field (`i < len(S)` or a range over it), with no condition inside the loop that lets an iteration skip a child and continue; a child indexed by a variable is never rewound to a constant outside such a loop. (slicekeep) a Slice or Clone method of a page type that builds its result as a literal of its own receiver type sets every field of the type (directly or by filling it through a method of the field). (rowsfollow) a function that gives the internal reader another row group also replaces (or has just dropped, under a nil test) the rows it has open. (fanout, cont.) the loop is left only at its bound or on a failing return, and its first index is computed from the cursor as the function leaves it (no later assignment of the field it was read from). (errexit, cont.) the same for SeekToRow methods that have an \"already there\" shortcut (a parameter compared with a field of the receiver) and reposition the elements of a slice field one after the other. (cursorreset) in a method that fills a caller-supplied []Value or []Row, a receiver field that a loop advances and that is rewound to zero inside a loop is rewound only on a branch of a test made after the step that reads it or that compares against the length of the destination (the inner cursor is exhausted), never merely after the loop that also stops when the destination is full. (valuerecv) no method with a value receiver stores a field through a pointer embedded in the receiver: narrowing a copy of a page (Slice) must not narrow the chunk the copy still points to. (rowcountprio) a function that takes the rows of chunk i from both the per-chunk list (multiColumnChunk.rowCounts) and the row groups reads the row groups only on the edge of a test of len(rowCounts) on which the list has no entry: the chunk index is a row group index only for columns that were never flattened.",
 		NotDecided: "the row arithmetic of skips and slices (boundary comparisons, the first index of a rewind loop), equality of the rows returned, behaviour after a read error has been reported.",
 		Assumptions: []string{
 			"path consistency is evaluated per function over its SSA control-flow graph; a callee counts as assigning a field when it assigns it on all of its own paths",
@@ -126,6 +126,7 @@ func runC08(c *Ctx) {
 	runSliceKeepRule(c, "C08.slicekeep", 10)
 	runCursorResetRule(c, "C08.cursorreset", 1)
 	runValueRecvRule(c, "C08.valuerecv", 5)
+	runFallbackPrioRule(c, "C08.rowcountprio", 2)
 	// the rows a reader has open belong to its row group: they are replaced together
 	{
 		rg := c.P.LookupField("reader", "rowGroup")
